@@ -368,3 +368,82 @@ Theorem C13_permutation_sensitive_unbounded :
     apply_ops ops (JObj [("d", JArr l)]) = Some b /\ apply_ops ops' (JObj [("d", JArr l)]) <> Some b.
 Proof. exact permutation_sensitive_unbounded. Qed.
 Print Assumptions C13_permutation_sensitive_unbounded.
+
+(* ================================================================ the API sequence on ONE old document; purity *)
+
+(* What annet/api (_patch_worker, Deployer) does with one file: merge the generators' fragments into the
+   old document, make the patch from THE SAME old object and the result, upload it to the device that
+   holds the original old.  Gallina values cannot be written to, so every theorem above that mentions
+   an input again after a call reads "the argument still has its value"; for Python objects this is the
+   separate PURITY clause (Spec/P_C13_sess.v): apply_json_fragment, apply_acl_filters, make_patch and
+   apply_patch leave every object handed to them with the value it had.  An implementation that may
+   write to its arguments returns their values afterwards as well ([eff_frag]); the model read this way
+   is [pure_frag].  The correspondence run observes the clause on the real code: the runner reports every
+   (function, argument) whose serialised text changed over a call (flag "mutated", equality of two real
+   values computed by the runner), and on sessions Coq evaluates [P_C13_session]: the old object still
+   has its value and the existing round-trip predicate P_C13_patch holds for the real patch, made from
+   the one old object, applied to the serialised original. *)
+From Annet Require Import Spec.P_C13_sess Proofs.JsonSessProofs.
+
+(* for every implementation that returns what the model returns and is pure, and every differ with the
+   hypothesis of C13_patch_roundtrip_partial, the device ends up with the merged document *)
+Theorem C13_session_roundtrip_partial :
+  forall (I : eff_frag) (D : json -> json -> list op),
+    returns_like V_fixed I -> leaves_inputs I ->
+    (forall a b, apply_ops (D a b) a = Some b) ->
+    forall old f acl new,
+      apply_fragment V_fixed old f acl = Some new ->
+      api_session I (fun a b => make_patch_of V_fixed (D a b)) old f acl = (Some new, Some new).
+Proof. intros I D HR HL HD. apply session_roundtrip; [reflexivity | exact HR | exact HL | exact HD]. Qed.
+Print Assumptions C13_session_roundtrip_partial.
+
+(* with the verified differ no hypothesis on a differ is left *)
+Theorem C13_session_roundtrip_verified_differ :
+  forall (I : eff_frag),
+    returns_like V_fixed I -> leaves_inputs I ->
+    forall old f acl new,
+      uniq old = true -> uniq new = true ->
+      apply_fragment V_fixed old f acl = Some new ->
+      fst (api_session I (fun a b => make_patch_of V_fixed (diff a b)) old f acl) = Some new /\
+      P_C13_patch (old, new) (snd (api_session I (fun a b => make_patch_of V_fixed (diff a b)) old f acl)) = true.
+Proof. intros I HR HL. apply session_roundtrip_verified; [reflexivity | exact HR | exact HL]. Qed.
+Print Assumptions C13_session_roundtrip_verified_differ.
+
+(* the model is such an implementation (pure by construction) *)
+Theorem C13_model_is_pure : returns_like V_fixed (pure_frag V_fixed) /\ leaves_inputs (pure_frag V_fixed).
+Proof. split; [apply pure_frag_returns_like | apply pure_frag_leaves_inputs]. Qed.
+Print Assumptions C13_model_is_pure.
+
+(* The purity clause can be neither dropped nor derived from the laws about the returned document: an
+   implementation with the model's return value for EVERY input (so inside / outside / idempotent hold
+   of it) that leaves the result in [old] makes the API sequence compute an empty patch; the device
+   keeps the stale member and the round-trip predicate is false. *)
+Theorem C13_session_needs_purity :
+  returns_like V_fixed (aliasing_frag V_fixed) /\
+  exists old f acl new,
+    uniq old = true /\ uniq new = true /\
+    apply_fragment V_fixed old f acl = Some new /\
+    fst (api_session (aliasing_frag V_fixed) (fun a b => make_patch_of V_fixed (diff a b)) old f acl) = Some new /\
+    snd (api_session (aliasing_frag V_fixed) (fun a b => make_patch_of V_fixed (diff a b)) old f acl) = Some old /\
+    P_C13_patch (old, new) (snd (api_session (aliasing_frag V_fixed) (fun a b => make_patch_of V_fixed (diff a b)) old f acl)) = false.
+Proof. exact (session_needs_purity V_fixed eq_refl). Qed.
+Print Assumptions C13_session_needs_purity.
+
+(* the predicate evaluated on the real sessions holds on the model's own session (any number of
+   chained generators, verified differ) *)
+Theorem C13_session_holds :
+  forall old steps new,
+    uniq old = true -> uniq new = true ->
+    chain V_fixed old steps = Some new ->
+    P_C13_session (old, steps) (session_outcome V_fixed diff (old, steps)) = true.
+Proof. intros old steps new Ho Hn Hc. apply (session_outcome_holds V_fixed old steps new); [reflexivity | exact Ho | exact Hn | exact Hc]. Qed.
+Print Assumptions C13_session_holds.
+
+(* non-vacuity: two chained generators, one of them only removes *)
+Example C13_session_example :
+  let old := JObj [("T", JObj [("a", JNum 1%Z); ("b", JNum 2%Z)]); ("U", JObj [("k", JNum 0%Z)])] in
+  let steps := [(JObj [("T", JObj [("a", JNum 1%Z)])], ["/T/*"]); (JObj [("U", JObj [("n", JNum 5%Z)])], ["/U/n"])] in
+  let new := JObj [("T", JObj [("a", JNum 1%Z)]); ("U", JObj [("k", JNum 0%Z); ("n", JNum 5%Z)])] in
+  uniq old = true /\ uniq new = true /\ chain V_fixed old steps = Some new /\
+  P_C13_session (old, steps) (session_outcome V_fixed diff (old, steps)) = true.
+Proof. vm_compute. repeat split. Qed.
